@@ -58,6 +58,13 @@ def pathTo (p : Path) : Sexp := .list (p.map fun s => .atom (tohex s))
 /-- `_unravel_key_to_tuple` (C++ transcription in Model/Key.lean) -/
 def pathOfKey (k : Key) : Path := Key.unravelTupCpp k
 
+/-- `unravel_key` (C++ transcription): used by rename_key_, select, exclude — invalid members of a tuple are dropped -/
+def pathOfKeyK (k : Key) : Path :=
+  match Key.unravelKeyCpp k with
+  | .s x => [x]
+  | .t l => l
+  | .err => []
+
 def isTupleKey : Key → Bool
   | .tup _ => true
   | _ => false
@@ -86,7 +93,7 @@ def opOf : Sexp → Option Op
   | .list [.atom "set", k, v] => do pure (.set (pathOfKey (← keyOf k)) (← entryOf v))
   | .list [.atom "del", k] => do pure (.del (pathOfKey (← keyOf k)))
   | .list [.atom "pop", k, d] => do pure (.pop (pathOfKey (← keyOf k)) (← boolOf d))
-  | .list [.atom "rename", o, n, s] => do pure (.rename (pathOfKey (← keyOf o)) (pathOfKey (← keyOf n)) (← boolOf s))
+  | .list [.atom "rename", o, n, s] => do pure (.rename (pathOfKeyK (← keyOf o)) (pathOfKeyK (← keyOf n)) (← boolOf s))
   | .list [.atom "setdefault", k, v] => do
       let kk ← keyOf k
       pure (.setdefault (pathOfKey kk) (isTupleKey kk) (← entryOf v))
@@ -96,9 +103,9 @@ def opOf : Sexp → Option Op
         | _ => none
       pure (.update its)
   | .list [.atom "select", .list ks, s, i] => do
-      pure (.select ((← ks.mapM keyOf).map pathOfKey) (← boolOf s) (← boolOf i))
+      pure (.select ((← ks.mapM keyOf).map pathOfKeyK) (← boolOf s) (← boolOf i))
   | .list [.atom "exclude", .list ks, i] => do
-      pure (.exclude ((← ks.mapM keyOf).map pathOfKey) (← boolOf i))
+      pure (.exclude ((← ks.mapM keyOf).map pathOfKeyK) (← boolOf i))
   | .list [.atom "flatten", .atom sep, i] => do pure (.flatten (← unhex sep) (← boolOf i))
   | .list [.atom "unflatten", .atom sep, i] => do pure (.unflatten (← charOf (← unhex sep)) (← boolOf i))
   | .list [.atom "split", .list sets, i, s] => do
